@@ -44,7 +44,7 @@ ListOps ==
   \cup {LOp(o, 0, 0, 0, 0, vs) : o \in {"extend", "iadd", "add", "eq"}, vs \in SeqsUpTo(NewVals \cup ListVals, 2)}
   \cup {LOp(o, 0, 0, 0, v, <<>>) : o \in {"remove", "index", "count", "contains"}, v \in ListVals \cup NewVals}
   \cup {LOp(o, 0, 0, 0, 0, <<>>) : o \in {"len", "iter", "reverse", "sort", "clear", "copy", "tojson"}}
-  \cup {LOp(o, k, 0, 0, 0, <<>>) : o \in {"mul", "imul"}, k \in {-1, 0, 1, 2}}
+  \cup {LOp(o, k, 0, 0, 0, <<>>) : o \in {"mul", "imul"}, k \in {-1, 0, 1, 2, 3, 4}}
   \cup {LOp("getslice", a, b, c, 0, <<>>) : a \in Bounds, b \in Bounds, c \in StepsC}
   \cup {LOp("delslice", a, b, c, 0, <<>>) : a \in Bounds, b \in Bounds, c \in StepsC}
   \cup {LOp("setslice", a, b, c, 0, vs) : a \in Bounds, b \in Bounds, c \in StepsC, vs \in Reps}
